@@ -120,7 +120,7 @@ _BINOPS = {ast.Add: '+', ast.Sub: '-', ast.Mult: '*', ast.Div: '/', ast.Mod: '%'
 
 
 class MiniEval:
-    def __init__(self, rule: str, env: dict, resolve=None, depth: int = 0):
+    def __init__(self, rule: str, env: dict, resolve=None, depth: int = 0, globals_=None):
         """resolve(text of the called expression) -> ast.FunctionDef | None : lets the evaluator
         step into small helper methods of the analysed program (self.<helper>(...)), so that an
         'extract method' refactoring does not change what is decided."""
@@ -128,6 +128,8 @@ class MiniEval:
         self.env = dict(env)
         self.resolve = resolve
         self.depth = depth
+        # module-level names (visible in every function that is stepped into, unlike the locals in env)
+        self.globals = globals_ if globals_ is not None else {}
 
     def fail(self, node, why=''):
         raise AnalysisError(self.rule, f"construct outside the mini-evaluator fragment: "
@@ -161,12 +163,13 @@ class MiniEval:
             if fn_ is not None:
                 return fn_
         if isinstance(e, (ast.ListComp, ast.GeneratorExp, ast.SetComp)):
-            out_ = []
             saved = dict(self.env)
+            # the loop targets are local to the comprehension; a walrus target is not (PEP 572)
+            tnames = {x.id for g_ in e.generators for x in ast.walk(g_.target) if isinstance(x, ast.Name)}
 
             def gen_(i):
                 if i == len(e.generators):
-                    out_.append(self.ev(e.elt))
+                    yield self.ev(e.elt)
                     return
                 g = e.generators[i]
                 if g.is_async:
@@ -177,10 +180,23 @@ class MiniEval:
                 for item in list(seq):
                     self.assign(g.target, item)
                     if all(self.ev(c) for c in g.ifs):
-                        gen_(i + 1)
-            gen_(0)
-            for k_ in [k for k in self.env if k not in saved and k.isidentifier()]:
-                del self.env[k_]
+                        yield from gen_(i + 1)
+
+            def restore():
+                for k_ in tnames:
+                    if k_ in saved:
+                        self.env[k_] = saved[k_]
+                    else:
+                        self.env.pop(k_, None)
+
+            def lazy():
+                try:
+                    yield from gen_(0)
+                finally:
+                    restore()
+            if isinstance(e, ast.GeneratorExp):
+                return lazy()           # consumed lazily by any / all / next / sum / tuple ...
+            out_ = list(lazy())
             return set(out_) if isinstance(e, ast.SetComp) else out_
         if isinstance(e, ast.BinOp) and type(e.op) in _BINOPS:
             l, r = self.ev(e.left), self.ev(e.right)
@@ -206,6 +222,8 @@ class MiniEval:
         if isinstance(e, ast.Name):
             if e.id in self.env:
                 return self.env[e.id]
+            if e.id in self.globals:
+                return self.globals[e.id]
             self.fail(e, '(unbound name)')
         if isinstance(e, ast.JoinedStr):
             return MSG
@@ -282,7 +300,10 @@ class MiniEval:
                 elif isinstance(op, (ast.In, ast.NotIn)):
                     if not isinstance(right, (tuple, list, str, set, frozenset, dict)):
                         raise _Fault('TypeError')
-                    res = (left in right) if isinstance(op, ast.In) else (left not in right)
+                    try:
+                        res = (left in right) if isinstance(op, ast.In) else (left not in right)
+                    except TypeError:
+                        raise _Fault('TypeError') from None
                 else:
                     if not isinstance(left, (int, float)) or not isinstance(right, (int, float)):
                         raise _Fault('TypeError')
@@ -304,6 +325,32 @@ class MiniEval:
                 raise
             except Exception as exc:
                 raise _Fault(type(exc).__name__) from None
+        if isinstance(e, ast.Call) and isinstance(e.func, ast.Attribute) and \
+                isinstance(e.func.value, (ast.Call, ast.Subscript)) and norm(e.func) not in self.env:
+            # a method of the value of a call / subscript: evaluated once, here
+            base = self.ev(e.func.value)
+            args_, kws_ = self._call_args(e)
+            if isinstance(base, Obj):
+                if e.func.attr not in base.methods:
+                    self.fail(e, f'(no method {e.func.attr} on the environment object {base!r})')
+                fn_ = base.methods[e.func.attr]
+            elif (isinstance(base, (list, dict, set, frozenset, tuple)) or
+                  (isinstance(base, str) and not isinstance(base, Sym))) and not kws_ and \
+                    e.func.attr in _CONTAINER_METHODS_OF['str' if isinstance(base, str) else type(base).__name__]:
+                fn_ = getattr(base, e.func.attr)
+            elif base is None:
+                raise _Fault('AttributeError')
+            else:
+                self.fail(e, '(method of a computed value)')
+            try:
+                out_ = fn_(*args_, **kws_)
+            except (_Ret, _Raised, _Fault, _Break, _Continue, AnalysisError):
+                raise
+            except Exception as exc:
+                raise _Fault(type(exc).__name__) from None
+            if type(out_).__name__ in ('dict_items', 'dict_keys', 'dict_values'):
+                out_ = list(out_)
+            return out_
         if isinstance(e, ast.Attribute) and isinstance(e.value, ast.Name) and \
                 isinstance(self.env.get(e.value.id), Obj) and e.attr in self.env[e.value.id].attrs:
             return self.env[e.value.id].attrs[e.attr]
@@ -347,7 +394,7 @@ class MiniEval:
                         child_env[recv_name] = self.env[e.func.value.id]
                     for p_, a_ in zip(params, e.args):
                         child_env[p_] = self.ev(a_)
-                    child = MiniEval(self.rule, child_env, self.resolve, self.depth + 1)
+                    child = MiniEval(self.rule, child_env, self.resolve, self.depth + 1, self.globals)
                     out = child.run(fn.body)
                     for k, v in child.env.items():      # attribute writes are visible to the caller
                         if not k.isidentifier():
@@ -526,7 +573,7 @@ class MiniEval:
             for p_, d_ in zip(params[len(params) - len(defaults):], defaults):
                 if params.index(p_) >= len(vals):
                     child_env[p_] = outer.ev(d_)
-            child = MiniEval(outer.rule, child_env, outer.resolve, outer.depth + 1)
+            child = MiniEval(outer.rule, child_env, outer.resolve, outer.depth + 1, outer.globals)
             out = child.run(body)
             for k, v in child.env.items():          # attribute writes are visible to the caller
                 if not k.isidentifier():
@@ -562,7 +609,7 @@ class MiniEval:
                 raise _Fault('TypeError')
             child_env = dict(outer.env)
             child_env.update(bound)
-            child = MiniEval(outer.rule, child_env, outer.resolve, outer.depth + 1)
+            child = MiniEval(outer.rule, child_env, outer.resolve, outer.depth + 1, outer.globals)
             out = child.run(fdef.body)
             for k, v in child.env.items():
                 if not k.isidentifier():
@@ -702,3 +749,34 @@ class MiniEval:
         except _Fault as f:
             return ('fault', f.name)
         return ('return', None)
+
+
+class ModuleGlobals(dict):
+    """Module-level names for MiniEval(globals_=...): explicit entries first, then the module's
+    constant bindings folded from the source (sa.tables.fold) on demand."""
+
+    def __init__(self, prog, mod, extra=None):
+        super().__init__(extra or {})
+        self._prog, self._mod = prog, mod
+        self._missing = set()
+
+    def _try(self, name):
+        if dict.__contains__(self, name) or name in self._missing:
+            return
+        from .tables import fold, Unfoldable
+        b = self._prog.lookup(self._mod, name)
+        if b is not None and b[0] == 'value':
+            try:
+                dict.__setitem__(self, name, fold(self._prog, self._mod, b[1]))
+                return
+            except (Unfoldable, AnalysisError, TypeError, ValueError):
+                pass
+        self._missing.add(name)
+
+    def __contains__(self, name):
+        self._try(name)
+        return dict.__contains__(self, name)
+
+    def __getitem__(self, name):
+        self._try(name)
+        return dict.__getitem__(self, name)
